@@ -143,6 +143,20 @@ def c01(res, tier, seed):
         if r.random() < 0.3:
             pat = [r.choice([0x61, 0x41, 0x62]) for _ in range(L)]   # self-overlapping alphabetic patterns
         m = random_mods(r)
+        if pi % 5 == 4:
+            # the window the engine indexes is NOT the first one: a run of one (common) byte, then distinct letters and digits,
+            # sometimes a dull tail; all modifier mixes (each variant - ascii / wide / case / xor - has its own distance back
+            # from the indexed window to the start of the string)
+            pre = [r.choice([0x20, 0x6d, 0x61, 0x90, 0xff, 0xcc, 0x30])] * r.randint(2, 6)
+            core = r.sample([0x41, 0x42, 0x43, 0x64, 0x65, 0x66, 0x47, 0x68, 0x31, 0x32, 0x37, 0x5f, 0x78, 0x59, 0x7a], r.randint(4, 6))
+            post = [r.choice([0x20, 0x6d, 0x00, 0x2e])] * r.choice([0, 0, 1, 3])
+            pat = pre + core + post
+            small = True
+            m = random_mods(r, allow_b64=False)
+            if r.random() < 0.6:
+                m["nocase"], m["xor"] = True, False
+            if r.random() < 0.6:
+                m["wide"] = True; m["ascii_explicit"] = r.random() < 0.6
         src = 'rule t { strings: $s = "%s" %s condition: #s >= 0 }' % (esc(pat, r), mods_text(m))
         bufs = [random_buffer(r, pat, m, 96 if small else 400) for _ in range(nbuf)]
         bufs += [b"", bytes(pat)]
